@@ -244,7 +244,7 @@ func genC15(out *Out, r *Rng, tier string, n int, shard int) {
 					run = runMerklize(doc, hs, loader, true)
 				}
 				tags := []string{fmt.Sprintf("undefined:%d", nu), fmt.Sprintf("safe:%v", safe), fmt.Sprintf("explicit:%v", explicit)}
-				c := Case{Op: "mz.safe", In: J{"h": hs.JSON, "ds": dsJ, "canon": canon, "safe": safe, "undefined": nu, "doc": string(doc)}, Tags: tags, NT: nu > 0}
+				c := Case{Op: "mz.safe", In: J{"h": hs.JSON, "ds": dsJ, "canon": canon, "safe": safe, "undefined": nu, "doc": string(doc), "schema": schemaJ(g), "node": nodeModelJU(root)}, Tags: tags, NT: nu > 0}
 				if run.Err != nil {
 					c.Impl = errJ(run.Err)
 					if !safe || nu == 0 {
